@@ -131,6 +131,8 @@ func (x *Exec) buildQueryM(o *Obligation, depth int, rounds int, qfMode bool) *Q
 		ax.Pats = [][]*Term{{zs}}
 		assumes = append(assumes, ax)
 	}
+	assumes = append(assumes, seqValAxioms(assumes, o.Goal)...)
+	assumes = append(assumes, atomAxioms(assumes, o.Goal)...)
 	goal := o.Goal
 	if qfMode {
 		assumes, goal = qfWeaken(assumes, goal, rounds)
